@@ -630,9 +630,11 @@ def gen_C04(w, tier):
             continue
         reps = (8 if ps.kind == "ed" else 3) * (8 if big else 1)
         seeds = ps.seeds or (b"M", b"N", b"symmetric")
-        for i in range(reps):
+        # deterministic edge scalars first (0, 1, q-1, the top bit of the order, ...), then random ones
+        fixed = w.base_edges(ps) if (ps.kind == "ed" or name == "1024" or big) else []
+        for i in range(len(fixed) + reps):
             side = "ABS"[i % 3]
-            x = w.scalar(ps)
+            x = fixed[i] % ps.q if i < len(fixed) else w.scalar(ps)
             pw = w.password()
             sc = w.scenario("C04/%s/%d" % (name, i), ("identity", "set:" + name, "side:" + side))
             s1 = sc.new(side, ps, pw, b"", b"", w.entropy_for(ps, x))
